@@ -381,10 +381,77 @@ func configs(tier string, seed int64) []cfg {
 		c.Procs = 2
 		return c
 	}())
+	// 5b: helper declarations shared between opcodes (declared by whichever opcode of a family comes
+	// first): every pair and every triple inside the families
+	fams := [][]string{{"cmpr", "cmprlt", "cmpv", "jcmpl", "jcmpo", "jcmpa", "jcmpria", "jcmprio"}, {"adc", "sbc", "clc", "cset", "incc", "cilc", "rsc", "jc"},
+		{"ro2r", "ro2rri"}, {"i2r", "i2rw", "sic", "sicv2", "sicv3"}, {"r2o", "r2owa", "r2owaa"}, {"m2r", "r2m", "m2rri", "r2mri"}}
+	for fi, fam := range fams {
+		var present []string
+		for _, o := range fam {
+			if gen.OpByName(o) != nil {
+				present = append(present, o)
+			}
+		}
+		add := func(sub []string) {
+			c := base(fmt.Sprintf("family%d:%s", fi, strings.Join(sub, "+")), 8, append(append([]string{}, sub...), "j"))
+			c.L = 3
+			cs = append(cs, c)
+		}
+		for a := 0; a < len(present); a++ {
+			for b := a + 1; b < len(present); b++ {
+				add([]string{present[a], present[b]})
+				if tier == "thorough" || (a+b)%3 == 0 {
+					for d := b + 1; d < len(present); d++ {
+						add([]string{present[a], present[b], present[d]})
+					}
+				}
+			}
+		}
+	}
 	// 6: commented output
 	cc := base("commented", 8, []string{"add", "rset", "j", "i2rw", "r2owa"})
 	cc.Commented = true
 	cs = append(cs, cc)
+	// every opcode alone with comments on (a comment in the wrong place breaks one template only)
+	for _, op := range all {
+		if _, isSO := soOf[op]; isSO || strings.Contains(op, "fxps") || strings.Contains(op, "flpe") {
+			continue
+		}
+		rs := uint8(8)
+		switch {
+		case op == "addf" || op == "multf" || op == "divf" || op == "jgt0f" || op == "expf":
+			rs = 32
+		case strings.HasSuffix(op, "f16") || strings.Contains(op, "fps16"):
+			rs = 16
+		}
+		c := base("single-commented:"+op, rs, []string{op, "j"})
+		c.Commented = true
+		switch op {
+		case "m2r", "r2m", "r2mri", "m2rri", "calla8s":
+			c.L = 3
+		case "tsp":
+			c.Threaded = 1
+		}
+		cs = append(cs, c)
+	}
+	// threading depth x execution mode x RAM
+	for thr := 1; thr <= 3; thr++ {
+		for _, mode := range []string{"ha", "vn", "hy"} {
+			c := base(fmt.Sprintf("threaded%d-%s", thr, mode), 8, []string{"add", "rset", "j", "i2rw", "r2owa", "tsp", "r2m", "m2r"})
+			c.Threaded, c.Mode, c.L = thr, mode, 3
+			cs = append(cs, c)
+		}
+	}
+	// ROM/RAM sizes at the small end and word widths over a wide range
+	for _, o := range []uint8{1, 2, 6} {
+		for _, l := range []uint8{1, 2, 5} {
+			for _, rs := range []uint8{8, 32, 64} {
+				c := base(fmt.Sprintf("mem:O%d-L%d", o, l), rs, []string{"rset", "j", "r2m", "m2r", "inc"})
+				c.O, c.L = o, l
+				cs = append(cs, c)
+			}
+		}
+	}
 	// 7: random opcode subsets
 	nRand := 60
 	if tier == "thorough" {
